@@ -192,6 +192,32 @@ fn roundtrip(n: usize) {
     cov!("right_tail_q", q * p.s > p.s - 0.5 * p.w[n - 1] && q < 1.0 && p.m[n - 1] < p.mx);
 }
 
+/// Interior interpolation with ARBITRARY finite f64 positions (the integer grid above cannot see overflow / cancellation):
+/// two singleton centroids at a <= b (any finite doubles, either sign, up to f64::MAX apart), min = a, max = b; q in
+/// {3/8, 4/8, 5/8} falls strictly between the two centroid centres (interpolation parameter t = 1/4, 1/2, 3/4).
+/// quantile(q) must be a finite number within [min, max] up to a relative 2^-48 of the larger magnitude, and
+/// non-decreasing in q.
+fn quantile_interior_any_f64() {
+    let a = any_f64();
+    let b = any_f64();
+    asm!(a.is_finite() && b.is_finite() && a <= b);
+    let d: TDigest<K0> = TDigest::verif_from_parts(K0::new(2.0), 10, &[(1.0, a), (1.0, b)], a, b, 2);
+    let j = any_u8();
+    asm!(j >= 3 && j <= 4);
+    let q0 = j as f64 / 8.0;
+    let q1 = (j + 1) as f64 / 8.0;
+    let r0 = d.quantile(q0);
+    let r1 = d.quantile(q1);
+    let mag = if a.abs() > b.abs() { a.abs() } else { b.abs() };
+    let slack = mag * (1.0 / 281474976710656.0) + f64::MIN_POSITIVE; // 2^-48 relative
+    chk!("interior_quantile_is_finite", r0.is_finite() && r1.is_finite());
+    chk!("interior_quantile_within_min_max", a - slack <= r0 && r1 <= b + slack);
+    chk!("interior_quantile_monotone", r0 <= r1 + slack);
+    cov!("means_straddle_zero_far_apart", a < -1.0e308 && b > 1.0e308);
+    cov!("equal_means", a == b);
+    cov!("subnormal_gap", a > 0.0 && b < 1.0e-310);
+}
+harness!(td_quantile_interior_any_f64, unwind 5, { quantile_interior_any_f64() });
 harness!(td_quantile_ends_n1, unwind 5, { quantile_ends(1) });
 harness!(td_quantile_ends_n2, unwind 5, { quantile_ends(2) });
 harness!(td_quantile_ends_n3, unwind 5, { quantile_ends(3) });
